@@ -411,6 +411,10 @@ def sched_run(prop, tier, seed, replay_path=None):
                 # a recorded schedule may no longer be feasible after a code change: that is not a failure
                 out = "\n".join(l.replace(" REPLAY-INFEASIBLE", "") for l in out.splitlines()) + "\n"
                 sched_analyse(spec, out, rc, err2, pre, res)
+            if rp.get("policy") and rp.get("runs") and not rp.get("schedule"):
+                # recorded as (policy, seed, number of runs): the failing run is one of these
+                rc, out, err2 = schedeng.run_workload(binary, rp["workload"], int(rp["runs"]), int(rp.get("seed", 0)), rp["policy"], trace=tr)
+                sched_analyse(spec, out, rc, err2, pre, res)
             for pol in ("random", "pct"):
                 rc, out, err2 = schedeng.run_workload(binary, rp["workload"], runs, rp.get("seed", 0) + seed, pol, trace=tr)
                 sched_analyse(spec, out, rc, err2, pre, res)
@@ -800,4 +804,19 @@ def main():
 
 
 if __name__ == "__main__":
-    main()
+    try:
+        main()
+    except SystemExit:
+        raise
+    except Exception:      # the machinery could not digest what the implementation produced
+        import traceback
+        tb = traceback.format_exc()
+        prop = sys.argv[1] if len(sys.argv) > 1 else "C00"
+        try:
+            path = vlib.write_replay(prop, int(os.environ.get("VERIF_SEED", "1")), 999,
+                                     {"broken": "the checker itself failed while processing the implementation's output (correspondence could not be evaluated)", "traceback": tb})
+        except Exception:
+            path = "/verif/replays/%s-checker-error.txt" % prop
+        sys.stderr.write(tb)
+        violation(prop, path, False)
+        sys.exit(1)
